@@ -46,7 +46,7 @@ def run(tier):
     ck.coverage["histories_checked"] = checked
     ck.coverage["histories_discarded_by_model"] = discarded
     return ck.finish("snippet histories (3-12 generated snippets plus probe batteries) on one interpreter, compared "
-                     "step by step with the model on the hooked and the dev build; non-trivial = distinct history "
+                     "step by step with the model on the hooked and the dev build; incl. failing statements that must leave no binding, closures over frames killed by the failure, probes of the fibers of a failed run, and globals of every kind across reset(); non-trivial = distinct history "
                      "containing at least one failing snippet")
 
 
